@@ -113,6 +113,7 @@ struct World {
     cur_on_flush: Vec<u32>,
     batch_no: u64,
     first_batch_first_wait: Option<Duration>,
+    max_exhausted_attempts: Option<u32>,
     // bookkeeping
     cbs: BTreeMap<u32, CbInfo>,
     next_cb: u32,
@@ -374,6 +375,19 @@ fn finish_cur(w: &mut World) {
         }
         if cur.last_retry_pending {
             w.out.probe("retry_budget_exhausted");
+            // the budget is per batch: a later batch must not be given up after far fewer attempts than an earlier one
+            // (compared loosely - less than half - so a budget that is not a plain count does not alarm)
+            if let Some(max_seen) = w.max_exhausted_attempts {
+                if cur.attempts * 2 < max_seen && cur.attempts > 1 {
+                    let d = format!(
+                        "batch #{} was given up after {} attempts although its processor still asked for a retry; an earlier batch got {} attempts (the retry budget is not reset per batch)",
+                        cur.no, cur.attempts, max_seen
+                    );
+                    w.out.violate("C08", "retry_budget_not_reset", d.clone());
+                    w.out.violate("C06", "retry_budget_not_reset", d);
+                }
+            }
+            w.max_exhausted_attempts = Some(w.max_exhausted_attempts.unwrap_or(0).max(cur.attempts));
         }
     }
 }
@@ -1231,6 +1245,7 @@ fn new_world(cap: usize, focus: u8, fault_budget: u32, retry_storm: bool) -> Wor
                 cur_on_flush: Vec::new(),
                 batch_no: 0,
                 first_batch_first_wait: None,
+        max_exhausted_attempts: None,
                 cbs: BTreeMap::new(),
                 next_cb: 0,
                 next_item: 0,
